@@ -4,6 +4,7 @@ import (
 	"bytes"
 	"fmt"
 	"runtime"
+	"strings"
 	"sync"
 	"testing"
 	"time"
@@ -53,7 +54,16 @@ func (o c20Op) run() (res string) {
 	default:
 		b := buildList(o.Cues)
 		d := time.Duration(o.Arg)
-		switch o.Name {
+		for _, name := range strings.Split(o.Name, "+") {
+			applyTransform(b, name, d, o.Cues)
+		}
+		return canon(b.sub)
+	}
+}
+
+func applyTransform(b *builtList, name string, d time.Duration, cues []cueSpec) {
+	{
+		switch name {
 		case "add":
 			b.sub.Add(d)
 		case "fragment":
@@ -65,7 +75,7 @@ func (o c20Op) run() (res string) {
 		case "order":
 			b.sub.Order()
 		case "merge":
-			other := buildList(o.Cues)
+			other := buildList(cues)
 			b.sub.Merge(other.sub)
 		case "optimize":
 			b.sub.Optimize()
@@ -77,8 +87,16 @@ func (o c20Op) run() (res string) {
 			}
 		case "linear":
 			b.sub.ApplyLinearCorrection(time.Second, 2*time.Second, 5*time.Second, 5*time.Second+d)
+		case "edittext":
+			// a caller editing the list it owns (e.g. the filler it just got)
+			for _, it := range b.sub.Items {
+				for li := range it.Lines {
+					for ri := range it.Lines[li].Items {
+						it.Lines[li].Items[ri].Text += "!"
+					}
+				}
+			}
 		}
-		return canon(b.sub)
 	}
 }
 
@@ -154,7 +172,15 @@ func genC20Op(t *rapid.T) c20Op {
 		g := genGL(t, false)
 		return c20Op{Kind: "write", Format: rapid.SampledFrom(writerFormats).Draw(t, "writer"), Spec: &g}
 	default:
-		return c20Op{Kind: "transform", Name: rapid.SampledFrom(c20Transforms).Draw(t, "name"), Cues: genCues(t, 0, 6, 100*nsMs*1000, opTexts), Arg: rapid.Int64Range(1, 5000).Draw(t, "arg") * nsMs}
+		name := rapid.SampledFrom(c20Transforms).Draw(t, "name")
+		for extra := rapid.IntRange(0, 2).Draw(t, "extra"); extra > 0; extra-- {
+			name += "+" + rapid.SampledFrom(append([]string{"edittext"}, c20Transforms...)).Draw(t, "name2")
+		}
+		if rapid.IntRange(0, 3).Draw(t, "fillerthenedit") == 0 {
+			// a filler cue is created, then the caller edits or strips the list it owns
+			name = "forceduration+" + rapid.SampledFrom([]string{"removestyling", "edittext", "edittext+forceduration"}).Draw(t, "after")
+		}
+		return c20Op{Kind: "transform", Name: name, Cues: genCues(t, 0, 6, 100*nsMs*1000, opTexts), Arg: rapid.Int64Range(1, 200000).Draw(t, "arg") * nsMs}
 	}
 }
 
